@@ -109,6 +109,11 @@ class SymbolCounter:
         if node.is_reference and node.is_local and not self.is_bound(node.name):
             self.freevars.add(node.name)
 
+        # Inline Python may mention local names, too.
+        for name in getattr(node, 'local_names', ()):
+            if not self.is_bound(name):
+                self.freevars.add(name)
+
     def postvisit(self, node):
         if node.defines_local:
             self._counts[node.name] -= 1
